@@ -94,7 +94,7 @@ def gen_keys(rng, n, debug_bias=0.15):
         r = rng.random()
         if keys and r < 0.35:
             base = dict(rng.choice(keys))
-            v = rng.random()
+            v = rng.random() * 1.15
             if v < 0.2 and base.get('ns'):
                 base['ns_form'] = rng.choice(['reversed', 'ordered'])
             elif v < 0.3 and base.get('custom'):
@@ -108,10 +108,20 @@ def gen_keys(rng, n, debug_bias=0.15):
                 base['ns'] = {} if base.get('ns') is None else None
             elif v < 0.75:
                 base['custom'] = {} if base.get('custom') is None else None
-            elif v < 0.85:
+            elif v < 0.8:
                 base['ns'] = rng.choice([m for m in gen.NAMESPACE_MAPS if m])
-            elif v < 0.92:
+            elif v < 0.85:
+                vc = gen.variant_custom(rng, base.get('custom'))
+                if vc is None:
+                    continue
+                base['custom'] = vc
+            elif v < 0.9:
                 base['pattern'] = ' ' + base['pattern']
+            elif v < 0.97:
+                nm = near_miss(rng, base['pattern'])
+                if nm is None:
+                    continue
+                base['pattern'] = nm
             else:
                 base['flags_explicit'] = True
             keys.append(base)
@@ -120,6 +130,24 @@ def gen_keys(rng, n, debug_bias=0.15):
                             debug_bias=debug_bias)
             keys.append(k)
     return keys
+
+
+_NEAR = [('2n+1', '2n+2'), ('odd', 'even'), ('(2)', '(3)'), ('n+2', 'n+3'), ('-n+3', '-n+2'), ('(en', '(de'),
+         ('"en-US"', '"en-GB"'), ('ltr', 'rtl'), ('[id', '[class'), ('^=', '$='), ('*=', '~='), ('|=', '='),
+         (':not(', ':is('), (':is(', ':where('), (' > ', ' + '), (' ~ ', ' + '), (' i]', ' s]'), ('hello', 'world'),
+         (':nth-child', ':nth-last-child'), (':nth-of-type', ':nth-last-of-type'), (':first-child', ':last-child'),
+         (':-soup-contains-own', ':-soup-contains'), ('of ', 'of *'), ('#d1', '#d2'), ('.a', '.b'), ('p', 'q')]
+
+
+def near_miss(rng, pattern):
+    """A pattern that differs from ``pattern`` in one token (one number, one name, one operator)."""
+
+    cands = [(a, b) for a, b in _NEAR if a in pattern] + [(b, a) for a, b in _NEAR if b in pattern]
+    if not cands:
+        return None
+    a, b = cands[rng.randrange(len(cands))]
+    i = pattern.find(a)
+    return pattern[:i] + b + pattern[i + len(a):]
 
 
 def nested_pattern(depth):
@@ -519,7 +547,35 @@ class Machine:
             self.probes['equal_keys_distinct_objects'] += 1
             if not bad:
                 self._eq_parts(a, b)
+        if not same and not bad:
+            self._neq_parts(a, b)
         return ('eq', bool(eq), bool(ne), hq)
+
+    def _neq_parts(self, a, b):
+        """The selector lists of two objects are equal exactly when they are structurally the same."""
+
+        try:
+            sa, sb = a[1].selectors, b[1].selectors
+            with sched.traced():
+                eq = sa == sb
+                ne = sa != sb
+                hq = hash(sa) == hash(sb)
+        except Exception as e:  # noqa: BLE001
+            self.violate('3-eqhash', detail=f'comparing parts raised {type(e).__name__}: {fp.short(e)}', keys=[a[0], b[0]])
+            return
+        same_struct = fp.fp_value(sa) == fp.fp_value(sb)
+        bad = None
+        if bool(eq) != same_struct:
+            bad = 'the selector lists (part .selectors) compare %s but are structurally %s' % (
+                'equal' if eq else 'unequal', 'the same' if same_struct else 'different')
+        elif bool(ne) == bool(eq):
+            bad = 'part .selectors: (a != b) is not the negation of (a == b)'
+        elif eq and not hq:
+            bad = 'part .selectors: equal parts have different hashes'
+        if bad:
+            self.violate('3-eqhash', detail=bad, keys=[a[0], b[0]], key_a=_key_brief(self.keys[a[0]]),
+                         key_b=_key_brief(self.keys[b[0]]))
+        self.probes['parts_compared_across_keys'] += 1
 
     def _eq_parts(self, a, b):
         """Every part of the structure is hashable, and corresponding parts of equal objects are equal/hash-equal."""
